@@ -29,8 +29,8 @@ SPEC = {
 
 def plan(tier, seed):
     n = 16 if tier == "quick" else 48
-    return [{"seed": seed, "shard": i, "nshards": n, "tier": tier, "random_pairs": 1500 if tier == "quick" else 12000,
-             "calls": 60 if tier == "quick" else 500} for i in range(n)]
+    return [{"seed": seed, "shard": i, "nshards": n, "tier": tier, "random_pairs": 6000 if tier == "quick" else 40000,
+             "calls": 200 if tier == "quick" else 1000} for i in range(n)]
 
 
 def universe(pt):
